@@ -5,11 +5,26 @@
   * code shape: "validate, then mutate" — which update() methods can still run a validation
     after their first state write is regenerated from /repo's AST on every run
     (harness/translators/atomicity.py) and decided here.
+  * index-range safety (the provable part of "never write outside their buffers"):
+    §A a semantics of index kernels with the behaviours observed on the installed torch
+       (raises / wraps / drops / unchecked) and the notion `SafeIdx`;
+    §B `idx_in_range_*`: for ALL inputs, on the typed models of the code, every index that
+       reaches a kernel is inside `[0, bound)` whenever the model answers — and the model
+       rejects otherwise;
+    §C decided obligations over the inventory of index sites regenerated from /repo's AST and
+       the kernel behaviours regenerated from the installed torch
+       (harness/translators/indexsites.py → TE/Gen/IndexSites.lean).
   NOT decidable by this technique: native memory safety inside torch kernels, interpreter
   crashes and hangs — those are observed by the fault enumeration in a child process.
 -/
 import TE.Model.ClassSM
 import TE.Gen.Atomicity
+import TE.Model.Index
+import TE.Gen.IndexSites
+import TE.Lemmas.Index
+import TE.Lemmas.IndexFam
+import TE.Lemmas.Window
+import TE.Lemmas.WindowAuroc
 namespace TE.C14
 open TE
 
@@ -50,5 +65,326 @@ theorem validate_then_mutate_table :
       ["BinaryBinnedAUPRC", "RetrievalPrecision", "RetrievalRecall"] := by decide +kernel
 
 example : Gen.validationAfterWrite.length ≥ 60 := by decide +kernel
+
+
+/-! # Index-range safety
+
+## A. kernels -/
+
+section kernels
+open TE.Index TE.IndexL
+variable {α : Type}
+
+/-- on an index inside `[0, n)` every kernel kind does the same thing: it updates that slot. -/
+theorem kernels_agree_in_range (b : Behaviour) (buf : List α) (i : Int) (f : α → α)
+    (h : 0 ≤ i ∧ i < (buf.length : Int)) : modifyAt b buf i f = .ok (buf.modify i.toNat f) :=
+  modifyAt_inRange b buf i f h
+
+/-- whatever a kernel answers, the buffer keeps its extent. -/
+theorem kernel_keeps_extent (b : Behaviour) (buf l : List α) (i : Int) (f : α → α)
+    (h : modifyAt b buf i f = .ok l) : l.length = buf.length :=
+  modifyAt_length b buf l i f h
+
+/-- only the `unchecked` kind can leave the buffer. -/
+theorem kernel_defined_unless_unchecked (b : Behaviour) (hb : b ≠ .unchecked) (buf : List α) (i : Int)
+    (f : α → α) : modifyAt b buf i f ≠ .undefined :=
+  modifyAt_defined b hb buf i f
+
+/-- **Safe ⇒ never silent**: if the kernel is of the raising kind or every index is in range, a
+    whole index tensor is either rejected with a Python exception or handled exactly as the caller
+    means (every index addresses its own slot): no wrap-around, no dropped element, no access
+    outside the buffer. -/
+theorem safe_site_never_silent (b : Behaviour) (buf : List α) (ops : List (Int × (α → α)))
+    (h : SafeIdx b buf.length (ops.map (·.1))) :
+    applyAll b buf ops = .raised ∨
+      ((∀ i ∈ ops.map (·.1), 0 ≤ i ∧ i < (buf.length : Int)) ∧ applyAll b buf ops = .ok (textbook buf ops)) :=
+  applyAll_safe b ops buf h
+
+example : SafeIdx .wraps 3 [0, 2, 1] := Or.inr (by decide)
+example : SafeIdx .raises 3 [0, -1, 7] := Or.inl rfl
+
+/-- what an UNGUARDED site of each non-raising kind does with the label `-1` on three classes:
+    `wraps` silently credits the last class, `drops` silently loses the sample, `unchecked` has no
+    defined result — the three ways a metric can be silently wrong or crash. -/
+theorem unguarded_kernel_witness :
+    modifyAt .wraps [0, 0, 0] (-1) (· + 1) = .ok [0, 0, (1 : Nat)] ∧
+    modifyAt .drops [0, 0, 0] (-1) (· + 1) = .ok [0, 0, (0 : Nat)] ∧
+    modifyAt .unchecked [0, 0, 0] (-1) (· + (1 : Nat)) = .undefined ∧
+    modifyAt .raises [0, 0, 0] (-1) (· + (1 : Nat)) = .raised := by decide
+
+end kernels
+
+/-! ## B. `idx_in_range_*` on the typed models -/
+
+section families
+open TE.Index TE.IndexL
+
+/-- `torch.argmax(row)` of a non-empty row is a position of the row (index by construction). -/
+theorem idx_in_range_argmax (row : List Q) (h : row ≠ []) : Count.argmaxFirst row < row.length :=
+  argmaxFirst_lt row h
+
+example : Count.argmaxFirst [1/2, 1, 1, 0] = 1 := by decide +kernel
+
+/-- `zeros(n).scatter_(0, idx, vals, reduce="add")`: when the model answers, every index is a slot;
+    any index `≥ n` makes it the `RuntimeError`. -/
+theorem idx_in_range_scatter (n : Nat) (idx : List Nat) (vals : List Q) :
+    (∀ r, Count.scatterAdd n idx vals = .ok r → ∀ i ∈ idx, i < n) ∧
+    (∀ i ∈ idx, n ≤ i → Count.scatterAdd n idx vals = .error .runtime) :=
+  ⟨fun r h => scatterAdd_ok_idx n idx vals r h, fun i hi hn => scatterAdd_err n idx vals i hi hn⟩
+
+/-- the same on labels as the user passes them (negative ones included): in range or `RuntimeError`;
+    and an answer is what EVERY kernel kind computes on those indices (`scatter_` itself is the
+    raising kind on this torch). -/
+theorem idx_in_range_scatter_int (n : Nat) (idx : List Int) (vals : List Q) :
+    (∀ r, scatterAddI n idx vals = .ok r →
+        (∀ i ∈ idx, 0 ≤ i ∧ i < (n : Int)) ∧ ∀ b, applyAll b (vzero n) (scatterOps idx vals) = .ok r) ∧
+    (∀ i ∈ idx, (i < 0 ∨ (n : Int) ≤ i) → scatterAddI n idx vals = .error .runtime) :=
+  ⟨fun r h => ⟨scatterAddI_ok_idx n idx vals r h, fun b => scatterAddI_eq_kernel b n idx vals r h⟩,
+   fun i hi ho => scatterAddI_err n idx vals i hi ho⟩
+
+example : scatterAddI 3 [0, 2, 2] [1, 1, 1] = .ok [1, 0, 2] ∧ scatterAddI 3 [0, -1] [1, 1] = .error .runtime := by
+  decide +kernel
+
+/-- per-class accuracy / precision / recall / F1 (`average ≠ "micro"`): when the update answers,
+    every target — and every prediction that reaches `scatter_` — is a class index `< num_classes`. -/
+theorem idx_in_range_count_families (preds labs : List Nat) (avg : Count.Avg) (C : Nat) (hm : avg ≠ .micro) :
+    (∀ mask r, Count.mcAccFromMask mask labs avg C = .ok r → ∀ l ∈ labs, l < C) ∧
+    (∀ s, Count.precisionUpdate preds labs avg C = .ok s →
+        (∀ l ∈ labs, l < C) ∧ ∀ p ∈ preds.zip labs, p.1 ≠ p.2 → p.1 < C) ∧
+    (∀ s, Count.recallUpdate preds labs avg C = .ok s → (∀ l ∈ labs, l < C) ∧ ∀ p ∈ preds, p < C) :=
+  ⟨fun mask r h => mcAccFromMask_ok mask labs avg C r hm h,
+   fun s h => precisionUpdate_ok preds labs avg C s hm h,
+   fun s h => recallUpdate_ok preds labs avg C s hm h⟩
+
+example : ∃ s, Count.recallUpdate [0, 2, 1] [0, 1, 1] .macro 3 = .ok s := ⟨_, rfl⟩
+
+/-- confusion matrix, typed model: an answer means every prediction and every target is `< C`;
+    anything else is rejected. -/
+theorem idx_in_range_confusion (preds labs : List Nat) (C : Nat) :
+    (∀ m, Count.confusionUpdate preds labs C = .ok m → (∀ p ∈ preds, p < C) ∧ (∀ l ∈ labs, l < C)) ∧
+    (((∃ p ∈ preds, C ≤ p) ∨ (∃ l ∈ labs, C ≤ l)) → Count.confusionUpdate preds labs C = .error .runtime) :=
+  ⟨fun m h => confusionUpdate_ok_idx preds labs C m h, confusionUpdate_err preds labs C⟩
+
+/-- confusion matrix on labels as the user passes them, with the value checks of
+    `_confusion_matrix_update_input_check` in front of the UNCHECKED kernel
+    (`sparse_coo_tensor(...).to_dense()`): an answer means `0 ≤ label < C` on both sides; any other
+    label is the check's `ValueError`; and whenever both checks pass the kernel's precondition holds
+    — the unchecked kernel never sees an index outside `[0, C)`. -/
+theorem idx_in_range_confusion_checked (C : Nat) (preds labs : List Int) :
+    (∀ m, confusionI C preds labs = .ok m →
+        (∀ p ∈ preds, 0 ≤ p ∧ p < (C : Int)) ∧ (∀ l ∈ labs, 0 ≤ l ∧ l < (C : Int))) ∧
+    (preds ≠ [] → ((∃ p ∈ preds, p < 0 ∨ (C : Int) ≤ p) ∨ (∃ l ∈ labs, l < 0 ∨ (C : Int) ≤ l)) →
+        confusionI C preds labs = .error .value) ∧
+    (∀ p l, checkLabels C preds = .ok p → checkLabels C labs = .ok l →
+        SafeIdx .unchecked C preds ∧ SafeIdx .unchecked C labs ∧ ∃ m, Count.confusionUpdate p l C = .ok m) :=
+  ⟨fun m h => confusionI_ok C preds labs m h,
+   fun hne h => confusionI_rejects C preds labs hne h,
+   fun p l hp hl => ⟨Or.inr (checkLabels_ok C preds p hp).2.1, Or.inr (checkLabels_ok C labs l hl).2.1,
+     confusion_checked C preds labs p l hp hl⟩⟩
+
+example : confusionI 3 [0, 2] [1, 2] = .ok [[0, 0, 0], [1, 0, 0], [0, 0, 1]] ∧
+    confusionI 3 [0, 2] [1, -1] = .error .value ∧ confusionI 3 [3, 2] [1, 1] = .error .value := by decide +kernel
+
+/-- binned metrics: the bucket `searchsorted(threshold, x, right=True) - 1` lies in `[-1, T)`. -/
+theorem idx_in_range_bucket (t : List Q) (x : Q) :
+    -1 ≤ Binned.bucket t x ∧ Binned.bucket t x < (t.length : Int) :=
+  bucket_range t x
+
+/-- the flat histogram code `2·(S·bucket + slot) + bit` of the memory forms (`slot < S` classes /
+    labels, `bit ≤ 1`): always below the number of bins `2·S·T`; non-negative exactly for the scores
+    at or above the first threshold; NEGATIVE for a score below it, which `histc(min=0)` drops —
+    it is never counted in a foreign bin. -/
+theorem idx_in_range_flatcode (S : Nat) (t : List Q) (x : Q) (slot bit : Nat) (hs : slot < S) (hb : bit ≤ 1) :
+    Binned.flatCode S t x slot bit < 2 * (S : Int) * (t.length : Int) ∧
+    (0 ≤ Binned.bucket t x → 0 ≤ Binned.flatCode S t x slot bit) ∧
+    (Binned.bucket t x = -1 → Binned.flatCode S t x slot bit < 0) :=
+  ⟨flatCode_lt S t x slot bit hs hb, flatCode_nonneg S t x slot bit, fun h => flatCode_neg S t x slot bit h hs hb⟩
+
+/-- the binary code `2·bucket + target` for targets in {0, 1}. -/
+theorem idx_in_range_binarycode (t : List Q) (x : Q) (y : Nat) (hy : y ≤ 1) :
+    Binned.binaryCode t x y < 2 * (t.length : Int) ∧ (0 ≤ Binned.bucket t x → 0 ≤ Binned.binaryCode t x y) ∧
+      (Binned.bucket t x = -1 → Binned.binaryCode t x y < 0) :=
+  binaryCode_range t x y hy
+
+example : Binned.flatCode 3 [0, 1/2, 1] (3/4) 2 1 = 11 ∧ Binned.flatCode 3 [1/4, 1/2] (1/8) 2 1 = -1 := by decide +kernel
+
+/-- UNGUARDED (binary / multilabel binned metrics): the code is only injective for `bit ≤ 1`; a
+    target `2` at the lowest bucket gets the code of a NEGATIVE sample one threshold higher, and a
+    target `-1` the code of a positive sample one threshold lower: silently wrong counts. -/
+theorem binned_target_out_of_range_witness :
+    Binned.binaryCode [0, 1/2] 0 2 = Binned.binaryCode [0, 1/2] (1/2) 0 ∧
+    2 * Binned.bucket [0, 1/2] (1/2) + (-1 : Int) = Binned.binaryCode [0, 1/2] 0 1 := by decide +kernel
+
+/-- `torch.gather(input, -1, target)` for one row: an answer means `0 ≤ target < len(row)` and is
+    that element; any other target is the `RuntimeError` (negative targets do not wrap). -/
+theorem idx_in_range_gather (row : List Q) (t : Int) :
+    (∀ y, Rank.gather1 row t = .ok y → 0 ≤ t ∧ t < (row.length : Int) ∧ row[t.toNat]? = some y) ∧
+    ((t < 0 ∨ (row.length : Int) ≤ t) → Rank.gather1 row t = .error .runtime) :=
+  ⟨fun y h => gather1_ok row t y h, gather1_err row t⟩
+
+/-- hit rate (`0 < k < C`) and reciprocal rank: an answer means every target addresses its row. -/
+theorem idx_in_range_ranks (rows : List (List Q)) (target : List Int) :
+    (∀ rs, Rank.ranks rows target = .ok rs → ∀ p ∈ rows.zip target, 0 ≤ p.2 ∧ p.2 < (p.1.length : Int)) ∧
+    (∀ (C : Nat) (k : Int) r, 0 < k → k < (C : Int) → Rank.hitRate rows C target (some k) = .ok r →
+        ∀ p ∈ rows.zip target, 0 ≤ p.2 ∧ p.2 < (p.1.length : Int)) ∧
+    (∀ k r, Rank.reciprocalRank rows target k = .ok r → ∀ p ∈ rows.zip target, 0 ≤ p.2 ∧ p.2 < (p.1.length : Int)) :=
+  ⟨fun rs h => ranks_ok rows target rs h, fun C k r h0 hC h => hitRate_ok rows C target k r h0 hC h,
+   fun k r h => reciprocalRank_ok rows target k r h⟩
+
+example : Rank.hitRate [[1/2, 1/4, 0]] 3 [1] (some 2) = .ok [1] ∧ Rank.hitRate [[1/2, 1/4, 0]] 3 [-1] (some 2) = .error .runtime := by
+  decide +kernel
+
+/-- NOT an index site, but a consequence worth a witness: for `k = None` or `k ≥ C` `hit_rate`
+    answers ones without ever looking at `target` — an out-of-range target is not noticed. -/
+theorem hit_rate_shortcut_ignores_target_witness :
+    Rank.hitRate [[1/2, 1/4, 0]] 3 [-7] none = .ok [1] ∧ Rank.hitRate [[1/2, 1/4, 0]] 3 [99] (some 3) = .ok [1] := by
+  decide +kernel
+
+/-- `get_topk` + `gather` of the labels: every retained (score, label) pair is one of the input's
+    positions, and `topk(min(k, n))` never asks for more than there is. -/
+theorem idx_in_range_topk (k : Option Nat) (l : List Rank.Pair) :
+    (∀ p ∈ Rank.topk k l, p ∈ l) ∧ (Rank.topk k l).length ≤ l.length ∧
+    (Rank.topk k l).length = (match k with | none => l.length | some k => min k l.length) :=
+  ⟨topk_mem k l, topk_length_le k l, RankL.topk_length k l⟩
+
+/-- retrieval classes: the `indexes == i` partition of a batch only selects positions of the
+    batch. -/
+theorem idx_in_range_retrieval_partition (batch : List Rank.Pair) (ix : List Int) (i : Int) :
+    (∀ x ∈ ((batch.zip ix).filter fun p => p.2 == i).map (·.1), x ∈ batch) ∧
+    (((batch.zip ix).filter fun p => p.2 == i).map (·.1)).length ≤ batch.length :=
+  ⟨partition_mem batch ix i, partition_length batch ix i⟩
+
+/-- … and query numbers outside `[0, num_queries)` are silently ignored: the update succeeds and
+    changes nothing (no index is formed from them — `drops` at the level of the metric). -/
+theorem retrieval_foreign_indexes_ignored (c : Rank.RCfg) (st : Rank.RState) (batch : List Rank.Pair)
+    (ix : List Int) (hq : c.numQueries ≠ 1) (hlen : st.length ≤ c.numQueries)
+    (hout : ∀ j ∈ ix, j < 0 ∨ (c.numQueries : Int) ≤ j) : Rank.rUpdate c st batch (some ix) = .ok st :=
+  rUpdate_foreign_indexes c st batch ix hq hlen hout
+
+example : Rank.rUpdate ⟨.precision, some 2, false, 2, .neg, false⟩ [[], []] [(1/2, 1), (1/4, 0)] (some [-1, 2]) = .ok [[], []] := by
+  decide +kernel
+
+/-- windowed metrics (update-granular ring buffer), EVERY history of updates, merges and resets,
+    every window size N ≥ 1: the write position `next_inserted` is a column of the buffer. -/
+theorem idx_in_range_ring {α B O : Type} (M : Acc α) (N : Nat) (hN : 1 ≤ N) (whole : Bool) (stat : B → Except Err α)
+    (render : α → α → Except Err O) (empty : O) (h : Hist B) (r : Window.Ring α)
+    (he : eval (Window.ringImpl M N whole stat render empty) h = .ok r) :
+    r.next < r.cap ∧ r.cap ≤ r.buf.length :=
+  (ring_all_histories M N hN whole stat render empty h r he).2
+
+/-- a single instance: the cursor is `|history| mod N` (C13 `ring_inv`), below `N = |buffer|`. -/
+theorem idx_in_range_ring_run {α : Type} (M : Acc α) (N : Nat) (hN : 1 ≤ N) (us : List α) :
+    (Window.Ring.run M N us).next = us.length % N ∧ (Window.Ring.run M N us).next < N ∧
+    (Window.Ring.run M N us).buf.length = N := by
+  have h := WindowL.rinv_run M N hN us
+  exact ⟨h.next, by rw [h.next]; exact Nat.mod_lt _ (by omega), h.len⟩
+
+/-- WindowedBinaryAUROC, every history: the cursor is a column of the buffer, the three branches
+    of `update` write the column ranges `aurocWriteRanges` which all lie inside `[0, cap)`, and
+    `update` IS that sequence of in-range slice assignments. -/
+theorem idx_in_range_auroc_window {B O : Type} (T N : Nat) (hN : 1 ≤ N) (cols : B → Except Err (List Window.Col))
+    (render : Window.AOut → O) (h : Hist B) (s : Window.SBuf)
+    (he : eval (Window.aurocImpl T N cols render) h = .ok s) (b : List Window.Col) :
+    s.next < s.cap ∧ s.cap ≤ s.buf.length ∧
+    (∀ r ∈ aurocWriteRanges s.cap s.next b.length, r.1 ≤ r.2 ∧ r.2 ≤ s.cap) ∧
+    (aurocWrites s.cap s.next b).map (fun w => (w.1, w.1 + w.2.length)) = aurocWriteRanges s.cap s.next b.length ∧
+    (s.buf.length = s.cap →
+      (s.update b).buf = (aurocWrites s.cap s.next b).foldl (fun d w => Window.place d w.1 w.2) s.buf) := by
+  have hok := sbuf_all_histories T N hN cols render h s he
+  exact ⟨hok.2.1, hok.2.2, aurocWriteRanges_in s.cap s.next b.length hok.2.1,
+    aurocWrites_ranges s.cap s.next b hok.2.1, update_buf_eq_writes s b⟩
+
+example : aurocWriteRanges 5 3 4 = [(3, 5), (0, 2)] ∧ aurocWriteRanges 5 3 2 = [(3, 5)] ∧ aurocWriteRanges 5 3 9 = [(0, 5)] := by
+  decide
+
+/-- perplexity: the explicit check bounds the counted targets (those ≠ `ignore_index`) from ABOVE. -/
+theorem idx_in_range_perplexity_upper (exp ln : Q → Q) (V : Nat) (rows : Mat) (tgt : List Int) (ignore : Option Int) :
+    (∀ r, Agg.pplUpdate exp ln V rows tgt ignore = .ok r → ∀ p ∈ Agg.pplTokens rows tgt ignore, p.2 < (V : Int)) ∧
+    (∀ p ∈ Agg.pplTokens rows tgt ignore, (V : Int) ≤ p.2 → Agg.pplUpdate exp ln V rows tgt ignore = .error .value) :=
+  ⟨fun r h => pplUpdate_ok_upper exp ln V rows tgt ignore r h, fun p hp hb => pplUpdate_rejects exp ln V rows tgt ignore p hp hb⟩
+
+/-- UNGUARDED from below (full statement `∀ counted target, 0 ≤ target` is false): the model — like
+    `_perplexity_input_check` — accepts a negative target, and the kernel `probs[:, target]` is of the
+    wrapping kind: target `-1` silently reads the LAST vocabulary entry. -/
+theorem perplexity_negative_target_witness :
+    (∃ r, Agg.pplUpdate id id 3 [[1, 2, 3]] [-1] none = .ok r) ∧
+    readAt .wraps [(1 : Q), 2, 3] (-1) = .ok 3 ∧ readAt .raises [(1 : Q), 2, 3] (-1) = .raised := by
+  refine ⟨⟨_, rfl⟩, by decide +kernel, by decide +kernel⟩
+
+/-- edit distance: the table's last row has exactly `|reference| + 1` cells, so `dp[-1][-1]` (and every
+    `dp[i][j]`, `j ≤ |reference|`) exists. -/
+theorem idx_in_range_edit_distance_table {α : Type} [DecidableEq α] (pred ref : List α) :
+    (Text.dpRows ref pred (List.range (ref.length + 1)) 0).length = ref.length + 1 :=
+  dp_final_row_length pred ref
+
+/-- BLEU: every counted n-gram has a length in `[1, N]`, so `matches_by_order[len(ngram) - 1]`
+    addresses one of the `N` slots. -/
+theorem idx_in_range_bleu_order {α : Type} (s : List α) (N : Nat) :
+    ∀ g ∈ Text.allNgrams s N, 1 ≤ g.length ∧ g.length ≤ N :=
+  allNgrams_length s N
+
+example : Text.allNgrams [1, 2, 3] 2 = [[1], [2], [3], [1, 2], [2, 3]] := by decide
+
+end families
+
+/-! ## C. decided obligations over the regenerated inventory -/
+
+section table
+open TE.Index
+
+/-- behaviour of a kernel kind as observed on the installed torch. -/
+def behaviourOf (k : String) : Option Behaviour :=
+  (Gen.kernelBehaviour.find? (·.1 == k)).map (·.2.1)
+
+/-- the index sites that NO guard protects on this tree (file, function, kernel kind, source):
+    an upper bound — a site that gets a guard may stay listed, a new unguarded site breaks
+    `index_sites_guarded`.  Consequences on the real code: harness/props/c14.py (`UNGUARDED`). -/
+def unguardedSites : List (String × String × String × String) := [
+  ("functional/classification/binned_precision_recall_curve.py", "_update", "histc",
+   "input.searchsorted | target | threshold.searchsorted"),
+  ("functional/classification/binned_precision_recall_curve.py", "_multiclass_binned_precision_recall_curve_update_memory",
+   "index_aug", "target"),
+  ("functional/classification/binned_precision_recall_curve.py", "_multiclass_binned_precision_recall_curve_update_memory",
+   "histc", "target"),
+  ("functional/classification/binned_precision_recall_curve.py", "_multilabel_binned_precision_recall_curve_update_memory",
+   "histc", "input.searchsorted | input.shape | input.shape.arange | target | threshold.searchsorted"),
+  ("functional/text/perplexity.py", "_perplexity_update", "index_get", "target")
+]
+
+/-- **every user-fed index site is guarded** — by an explicit value check that runs before it, by
+    construction of the index, or by a kernel that raises — except the sites listed above. -/
+theorem index_sites_guarded :
+    ∀ s ∈ Gen.indexSites, s.guard ≠ .none ∨ s.key ∈ unguardedSites := by decide +kernel
+
+/-- a site that relies on the kernel's own bounds check uses a kernel that DID raise for every
+    out-of-range index of the probe on the installed torch. -/
+theorem kernel_raises_sites_probed :
+    ∀ s ∈ Gen.indexSites, s.guard = .kernelRaises → s.kind ∈ Gen.raisingKinds := by decide +kernel
+
+/-- every site's kernel kind has been probed. -/
+theorem every_site_kind_probed : ∀ s ∈ Gen.indexSites, (behaviourOf s.kind).isSome = true := by decide +kernel
+
+/-- the kernels that can leave their buffer (`unchecked`) are only reached through an explicit
+    check or with constructed indices; hence the unguarded sites above are of the wrapping /
+    dropping kinds: silently wrong results, but no access outside a buffer. -/
+theorem unchecked_kernels_are_guarded :
+    ∀ s ∈ Gen.indexSites, behaviourOf s.kind = some .unchecked → s.guard = .explicitCheck ∨ s.guard = .byConstruction := by
+  decide +kernel
+
+/-- the behaviour of every probed kernel kind on the installed torch (a torch upgrade that changes
+    one of them changes the generated table and breaks this theorem). -/
+theorem kernel_behaviour_table :
+    Gen.kernelBehaviour.map (fun r => (r.1, r.2.1)) = [
+      ("gather", .raises), ("histc", .drops), ("index_add_", .raises), ("index_aug", .wraps), ("index_get", .wraps),
+      ("index_put_", .wraps), ("index_select", .raises), ("index_set", .wraps), ("int_get", .wraps), ("one_hot", .raises),
+      ("pylist_get", .wraps), ("pylist_set", .wraps), ("scatter_", .raises), ("scatter_add_", .raises),
+      ("slice_set", .raises), ("sparse_coo_tensor", .unchecked), ("split", .raises), ("take_along_dim", .unchecked),
+      ("topk", .raises)] ∧
+    Gen.searchsortedNonFinite = [3, 3, 0] := by decide +kernel
+
+example : Gen.indexSites.length ≥ 100 := by decide +kernel
+example : ∃ s ∈ Gen.indexSites, s.guard = .explicitCheck ∧ s.kind = "sparse_coo_tensor" := by decide +kernel
+
+end table
 
 end TE.C14
